@@ -233,3 +233,54 @@ m("C09-simleaf-value", ["C09", "C08"], "exceptions.py",
 m("C09-leaf-diverge-partial", ["C09", "C08"], "hexary.py",
   "                if key_starts_with(leaf_key, remaining_key):\n                    return node, remaining_key\n                else:",
   "                if key_starts_with(leaf_key, remaining_key) or len(remaining_key) == 1:\n                    return node, remaining_key\n                else:")
+
+# ---- C12 ------------------------------------------------------------------------------
+m("C12-order", ["C12"], "binary.py",
+  "            if keypath[common_prefix_len : common_prefix_len + 1] == BYTE_1:\n                newsub = self._hash_and_save(encode_branch_node(oldnode, valnode))",
+  "            if keypath[common_prefix_len : common_prefix_len + 1] == BYTE_1 and common_prefix_len:\n                newsub = self._hash_and_save(encode_branch_node(oldnode, valnode))")
+m("C12-firstbit", ["C12"], "binary.py",
+  "            first_bit = BYTE_1 if new_right_child != BLANK_HASH else BYTE_0",
+  "            first_bit = BYTE_1 if new_right_child != BLANK_HASH and subnodetype != LEAF_TYPE else BYTE_0")
+m("C12-subtrie", ["C12"], "binary.py",
+  "            if len(keypath) < len(left_child) and keypath == left_child[: len(keypath)]:\n                return BLANK_HASH",
+  "            if len(keypath) + 1 < len(left_child) and keypath == left_child[: len(keypath)]:\n                return BLANK_HASH")
+m("C12-nocompress", ["C12"], "binary.py",
+  "            if subnodetype == KV_TYPE:\n                return self._hash_and_save(\n                    encode_kv_node(left_child + sub_left_child, sub_right_child)\n                )\n            else:",
+  "            if subnodetype == KV_TYPE and len(left_child) != 8:\n                return self._hash_and_save(\n                    encode_kv_node(left_child + sub_left_child, sub_right_child)\n                )\n            else:")
+m("C12-override-missed", ["C12"], "binary.py",
+  "                if len(keypath) <= common_prefix_len:\n                    raise NodeOverrideError(",
+  "                if len(keypath) < common_prefix_len:\n                    raise NodeOverrideError(")
+m("C12-subtrie-branch-end", ["C12"], "binary.py",
+  "            if not keypath:\n                if if_delete_subtrie:\n                    return BLANK_HASH\n                else:\n                    raise NodeOverrideError(\n                        \"Fail to set the value because it's key\"\n                        \" is the prefix of other existing key\"\n                    )\n            return self._set_branch_node(",
+  "            if not keypath:\n                if if_delete_subtrie and False:\n                    return BLANK_HASH\n                else:\n                    raise NodeOverrideError(\n                        \"Fail to set the value because it's key\"\n                        \" is the prefix of other existing key\"\n                    )\n            return self._set_branch_node(")
+m("C12-get-kv-short", ["C12"], "binary.py",
+  "            if keypath[: len(left_child)] == left_child:\n                return self._get(right_child, keypath[len(left_child) :])\n            else:\n                return None",
+  "            if keypath[: len(left_child)] == left_child[: len(keypath)]:\n                return self._get(right_child, keypath[len(left_child) :])\n            else:\n                return None")
+m("C12-twobits", ["C12", "C16"], "utils/binaries.py",
+  "    prefix = TWO_BITS[len(input_bin) % 4]", "    prefix = TWO_BITS[len(input_bin) % 4 if len(input_bin) != 13 else 0]")
+
+# ---- C13 ------------------------------------------------------------------------------
+m("C13-witness", ["C13"], "branches.py",
+  "            yield node\n            yield from get_trie_nodes(db, right_child)\n        elif keypath[: len(left_child)] == left_child:",
+  "            yield node\n        elif keypath[: len(left_child)] == left_child:")
+m("C13-getbranch", ["C13"], "branches.py",
+  "            yield from _get_branch(db, right_child, keypath[len(left_child) :])\n        else:\n            yield node",
+  "            yield from _get_branch(db, right_child, keypath[len(left_child) :])\n        else:\n            return")
+m("C13-exist-past-leaf", ["C13"], "branches.py",
+  "    if nodetype == LEAF_TYPE:\n        if key_prefix:\n            return False\n        return True",
+  "    if nodetype == LEAF_TYPE:\n        return True")
+m("C13-valid-ignores-root", ["C13"], "branches.py",
+  "    assert BinaryTrie(db=db, root_hash=root_hash).get(key) == value",
+  "    assert BinaryTrie(db=db, root_hash=keccak(branch[0])).get(key) == value")
+m("C13-trienodes-skip-right", ["C13"], "branches.py",
+  "        yield from get_trie_nodes(db, left_child)\n        yield from get_trie_nodes(db, right_child)",
+  "        yield from get_trie_nodes(db, left_child)\n        if left_child != right_child:\n            yield from get_trie_nodes(db, right_child)\n        if False:\n            pass")
+m("C13-exist-kv-partial", ["C13"], "branches.py",
+  "            if key_prefix == left_child[: len(key_prefix)]:\n                return True\n            return False",
+  "            return True")
+m("C13-branch-tooshort-ok", ["C13"], "branches.py",
+  "    elif nodetype == BRANCH_TYPE:\n        if not keypath:\n            raise InvalidKeyError(\"Key too short\")\n        if keypath[:1] == BYTE_0:\n            yield node\n            yield from _get_branch(db, left_child, keypath[1:])",
+  "    elif nodetype == BRANCH_TYPE:\n        if not keypath:\n            raise InvalidKeyError(\"Key too short\")\n        if keypath[:1] == BYTE_0:\n            yield from _get_branch(db, left_child, keypath[1:])")
+m("C13-valid-assert-removed", ["C13"], "branches.py",
+  "    assert BinaryTrie(db=db, root_hash=root_hash).get(key) == value\n    return True",
+  "    BinaryTrie(db=db, root_hash=root_hash).get(key)\n    return True")
